@@ -20,14 +20,15 @@ rm -rf /tmp/seedkeep-$id; cp -r SEED /tmp/seedkeep-$id
 git checkout -q -- . ; git clean -fdq -e SEED -e TASK.md
 demo_files=$(ls /tmp/seedkeep-$id/demo/*.go 2>/dev/null)
 runcmd=$(grep -m1 -E '^\s*(go test|go run)' /tmp/seedkeep-$id/demo/RUN.txt | sed 's/^\s*//')
-dest=$(grep -m1 -oE '[a-zA-Z0-9_./-]+/zz_seed_demo[a-zA-Z0-9_]*_test\.go' /tmp/seedkeep-$id/demo/RUN.txt | head -1)
-echo "RUN: $runcmd  DEST: $dest" >> $log
+pkgdir=$(echo "$runcmd" | grep -oE '(^| )\./[a-zA-Z0-9_./-]+' | tail -1 | tr -d ' ' | sed 's|/\.\.\.$||; s|/$||')
+echo "RUN: $runcmd  PKGDIR: $pkgdir" >> $log
 place_demo() {
   for f in $demo_files; do
     b=$(basename $f)
-    d=$(grep -oE "[a-zA-Z0-9_./-]*/$b" /tmp/seedkeep-$id/demo/RUN.txt | head -1)
-    [ -z "$d" ] && d=$(dirname "$dest")/$b
-    d=${d#/tmp/seed-$id/}
+    # explicit destination named in RUN.txt (a path ending in the file name that is not under SEED/), else the package of the run command
+    d=$(grep -oE "[a-zA-Z0-9_./-]*/$b" /tmp/seedkeep-$id/demo/RUN.txt | grep -v '^SEED/' | grep -v '/demo/' | grep -v '^demo/' | sed "s|^/tmp/seed-$id/||" | head -1)
+    [ -z "$d" ] && d=$pkgdir/$b
+    d=${d#./}
     mkdir -p $(dirname $d); cp $f $d; echo "placed $d" >> $log
   done
 }
